@@ -729,7 +729,7 @@ func c10Gen(g *Gen) {
 			visible string // "", "plain", "copy", "inline-copy"
 			deltas  []int  // 2*M - bound
 		}
-		variants := []tight{{17, "", []int{0}}, {16, "", []int{-1, 1}}}
+		variants := []tight{{17, "", []int{0}}, {16, "", []int{1}}, {16, "copy", []int{0}}}
 		if g.Thorough() {
 			variants = []tight{{17, "", []int{-2, 0, 2}}, {16, "", []int{-3, -1, 1, 3}}, {16, "plain", []int{-1, 0, 1}},
 				{17, "copy", []int{-1, 0, 1}}, {16, "inline-copy", []int{-1, 0, 1}}, {33, "plain", []int{-1, 0, 1}}}
